@@ -694,6 +694,13 @@ func ruleSetDocs() []rsDoc {
 		{"non-bool cel condition", strings.Replace(base.JSON(), `"Subject.ID != ''"`, `"Subject.ID"`, 1)},
 		{"invalid template", strings.Replace(base.JSON(), `{{ .Subject.ID }}`, `{{ .Subject.ID `, 1)},
 		{"unknown version", strings.Replace(base.JSON(), `"1alpha4"`, `"1alpha3"`, 1)},
+		// rejected by the repository only (after the rules of the previous version were removed from the working copy)
+		{"path with a segment after a free wildcard", strings.Replace(base.JSON(), `"/case/:id/x"`, `"/case/**/x"`, 1)},
+		{"path owned by another rule set", strings.Replace(base.JSON(), `"/case/:id/x"`, `"/base/:id/x"`, 1)},
+		// rule specific config with a single non-string key (decoded by yaml as map[any]any)
+		{"config with an integer key", "version: \"1alpha4\"\nrules:\n- id: x\n  match: {routes: [{path: /case/**}]}\n  execute:\n  - {authenticator: anon, config: {401: challenge}}\n"},
+		{"config with a boolean key", "version: \"1alpha4\"\nrules:\n- id: x\n  match: {routes: [{path: /case/**}]}\n  execute:\n  - {authenticator: anon, config: {true: b}}\n"},
+		{"error handler config with an integer key", "version: \"1alpha4\"\nrules:\n- id: x\n  match: {routes: [{path: /case/**}]}\n  execute:\n  - {authenticator: anon}\n  on_error:\n  - {error_handler: www, config: {401: challenge}}\n"},
 	}
 	for _, e := range extra {
 		docs = append(docs, rsDoc{e.name, "extra", e.text, false})
